@@ -685,8 +685,21 @@ fn check_records_only_by_admins(prop: &str, w: &World, s: &Step, ok: bool, pre: 
         for k in a.keys().chain(b.keys()) {
             if a.get(k) != b.get(k) {
                 // (spending rewrites an existing record; it neither creates nor deletes one)
+                // and spending only ever lowers what is there: no amount grows, no denomination appears, the
+                // deadline stays)
                 if spending_allowed && ok && matches!(s.call, Call::Execute(_)) && k == own && a.contains_key(k) && b.contains_key(k) {
-                    continue;
+                    let parse = |raw: &Vec<u8>| cosmwasm_std::from_json::<cw1_subkeys::state::Allowance>(raw).ok();
+                    match (parse(&a[k]), parse(&b[k])) {
+                        (Some(x), Some(y)) => {
+                            let before = |d: &str| x.balance.0.iter().filter(|c| c.denom == d).map(|c| c.amount.u128()).sum::<u128>();
+                            let grown = y.balance.0.iter().any(|c| c.amount.u128() > before(&c.denom));
+                            if !grown && x.expires == y.expires {
+                                continue;
+                            }
+                            return Err(v(prop, "record-changed-by-non-admin", format!("{at}: the subkey's own call raised its stored allowance (or moved its deadline): {:?} / {:?} -> {:?} / {:?}", x.balance.0, x.expires, y.balance.0, y.expires)));
+                        }
+                        _ => continue,
+                    }
                 }
                 return Err(v(prop, "record-changed-by-non-admin", format!("{at}: the stored {name} record of {k} was {} in a call that is not a successful call of a current admin (admins {:?})", if b.contains_key(k) { if a.contains_key(k) { "rewritten" } else { "created" } } else { "deleted" }, pre.admins)));
             }
@@ -996,6 +1009,9 @@ fn differential(prop: &str, w: &World, pre: &Obs, t: &Track, sender: usize, msg:
 pub fn run_case(prop: &str, case: &Case, ctx: &mut CaseCtx) -> Result<(), Violation> {
     let mut w = World::new(case.subkeys);
     w.d.chain_admin = case.chain_admin.map(|i| w.senders[i as usize % N_ACTORS].clone());
+    // the proxy holds delegations with both validators, with rewards waiting (claiming them is the proxy's business:
+    // it gives nobody an allowance)
+    w.d.delegations = vec![(VALIDATORS[0].to_string(), vec![Coin::new(777u128, DENOMS[0]), Coin::new(5u128, DENOMS[1])]), (VALIDATORS[1].to_string(), vec![Coin::new(3u128, DENOMS[2])])];
     if case.peer {
         // (asked for its admin list it names every actor; to anything else it says yes)
         let everybody = serde_json::to_vec(&serde_json::json!({"admins": w.senders[..N_ACTORS].iter().map(|a| a.to_string()).collect::<Vec<_>>(), "mutable": true})).unwrap();
@@ -1267,6 +1283,11 @@ fn check_c07(w: &World, s: &Step, resp: Option<&Response>, pre: &Obs, post: &Obs
         return Ok(());
     };
     let ok = resp.is_some();
+    // "any other caller": a sender that is no admin and holds neither an allowance nor permissions (no record of
+    // either kind) gets nothing relayed, whatever the messages say - not even a payment of nothing
+    if w.subkeys && ok && !admin && !msgs.is_empty() && !pre.raw_allow.contains_key(sender) && !pre.raw_perm.contains_key(sender) {
+        return Err(v(prop, "stranger-relayed", format!("{at}: sender{} is no admin and has no allowance or permission record, yet its messages were relayed", s.sender)));
+    }
     for k in &s.kinds {
         ctx.count(&format!("msg_{k}_{}_{}", if admin { "admin" } else { "nonadmin" }, if ok { "relayed" } else { "refused" }));
     }
